@@ -189,7 +189,7 @@ func (r *Receiver) SegmentHandlerFunc(w http.ResponseWriter, req *http.Request) 
 				rsd.seqNr = rsd.seqNrIn - uint32(ch.startNr)
 				inTime := moof.Traf.Tfdt.BaseMediaDecodeTime()
 				t := int64(inTime)
-				if rsd.shouldBeShifted {
+				if rsd.shouldBeShifted && masterTimescale != 0 {
 					if masterTimeShift != 0 {
 						if masterTimescale != trd.timeScaleIn {
 							t = t * int64(masterTimescale) / int64(trd.timeScaleIn)
@@ -199,6 +199,10 @@ func (r *Receiver) SegmentHandlerFunc(w http.ResponseWriter, req *http.Request) 
 						t = t * int64(trd.timeScaleIn) / int64(masterTimescale)
 					}
 					segDur := int64(masterSegDur) * int64(trd.timeScaleIn) / int64(masterTimescale)
+					if segDur <= 0 {
+						return fmt.Errorf("segment duration %d in master timescale %d is too short for track timescale %d",
+							masterSegDur, masterTimescale, trd.timeScaleIn)
+					}
 					rsd.seqNr = uint32((t+segDur/2)/segDur) - uint32(ch.startNr)
 					if rsd.seqNr != rsd.seqNrIn {
 						log.Debug("SeqNr change", "seqNrIn", rsd.seqNrIn, "seqNr", rsd.seqNr)
